@@ -278,6 +278,7 @@ func runC15(c *Ctx) {
 	}
 	c.nilResults(scope)
 	c.validResults(scope)
+	c.clonedMapsAreNotWrittenWhenNil(scope)
 	c.Floor("C15.1-optional-dereferences", nDeref, 8)
 	c.Floor("C15.2-index-and-slice-sites", nIdx, 25)
 	c.Floor("C15.3-assertions-panics-ordie", nOther, 8)
